@@ -334,7 +334,7 @@ class MiniInterp:
 
 
 # ---------------------------------------------------------------------------------------------- CFG
-def feasible_reachable(g, tri: Callable[[ast.expr], Optional[bool]], starts=None):
+def feasible_reachable(g, tri: Callable[[ast.expr], Optional[bool]], starts=None, avoid=()):
     """Nodes of CFG `g` reachable from the entry along non-exceptional edges when a branch outcome that the
     three-valued oracle `tri(test) -> True/False/None` refutes is not taken.  Independent of how the decision is
     spelled: compound condition, nested ifs, early return, inverted if/else."""
@@ -352,7 +352,7 @@ def feasible_reachable(g, tri: Callable[[ast.expr], Optional[bool]], starts=None
                 return False
         return True
 
-    return g.reachable([g.entry] if starts is None else starts, edge_ok=ok)
+    return g.reachable([g.entry] if starts is None else starts, avoid=avoid, edge_ok=ok)
 
 
 def require(cond, msg):
